@@ -399,6 +399,7 @@ class MK:
         self.cond_style = kw.get("cond_style", "prop")
         self.stmt_calls = dict(kw.get("stmt_calls", {}))     # call statements with effects on buffers: name -> python handler(tr, e, st, out, ind)
         self.macro_pat = kw.get("macro_pat", ("(", ")"))
+        self.iloops = list(kw.get("iloops", []))             # step functions of the `for i in 0..N` loops, in source order
         self.tr_class = kw.get("tr_class")                   # optional subclass of Tr / IntTr (extra expression forms of one source file)
         self.macro_lit_ok = dict(kw.get("macro_lit_ok", {})) # macro (call form) -> predicate on the argument texts (literal side conditions)
         self.let_hooks = dict(kw.get("let_hooks", {}))       # `let x = f(..)` with an aggregate result: fn path -> handler(tr, name, init, st, out, ind)
@@ -497,6 +498,7 @@ class Tr:
         self.bstr_table = bstr_table or []
         self.tmpn = 0
         self.n_checked = 0
+        self.iloop_ids = {}
 
     # ---------- naming
     def lean_name(self, place):
@@ -703,6 +705,17 @@ class Tr:
                 raise TranslateError(f"unknown field {key}")
             if k == "index":
                 return self.index_expr(e, st, want, out, ind)
+        if k == "cast" and self.k.mode == "int":
+            inner_e = e[1]
+            while inner_e[0] == "paren":
+                inner_e = inner_e[1]
+            to_ = self.norm_ty(e[2])
+            if inner_e[0] == "bin" and inner_e[1] == "|" and ("cast|", to_) in self.k.int_ops:
+                # `(x | y) as u8` on signed x, y: the low byte of the OR is the OR of the low bytes (two's complement)
+                a = self.ex(inner_e[2], st, None, out, ind); b = self.ex(inner_e[3], st, None, out, ind)
+                if not (self.is_int(a.ty) and a.ty == b.ty):
+                    raise TranslateError("`|` of non-signed / mixed operands under a cast")
+                return V(self.k.int_ops[("cast|", to_)].format(a.p(), b.p()), to_)
         if k == "cast":
             to = self.norm_ty(e[2])
             if isinstance(to, tuple) and to[0] == "ptr":
@@ -710,7 +723,11 @@ class Tr:
             inner = self.ex(e[1], st, to if e[1][0] == "lit" and e[1][2] is None else None, out, ind)
             return self.cast(inner, to)
         if k == "bin":
-            return self.binop(e[1], e[2], e[3], st, want, out, ind)
+            if self.k.mode == "int" and self.is_const_int(e, st) and want is not None and self.lit_only(e):
+                ty = self.norm_ty(want)
+                n = self.const_int(e, st)
+                return V(lit_text(n, ty) if n >= 0 else f"(-{-n} : Int)", ty, True)
+            return self.binop(e[1], e[2], e[3], st, want, out, ind, hint=self.take_hint(e))
         if k == "not":
             v = self.ex(e[1], st, want, out, ind)
             if v.ty == "bool":
@@ -726,7 +743,7 @@ class Tr:
                 return V(f"(-{e[1][1]} : Int)", ty, True)
             v = self.ex(e[1], st, want, out, ind)
             if self.is_int(v.ty):
-                return self.int_arith("neg", v, None, v.ty, st, out, ind)
+                return self.int_arith("neg", v, None, v.ty, st, out, ind, self.take_hint(e))
             raise TranslateError(f"unary minus on {v.ty}")
         if k == "call":
             return self.call(e, st, want, out, ind)
@@ -741,7 +758,34 @@ class Tr:
             raise TranslateError("struct literal in value position (use the kernel's result function)")
         raise TranslateError(f"unsupported expression {k}")
 
+    _hint = None
+
+    def take_hint(self, e):
+        if self._hint is not None and self._hint[0] is e:
+            h = self._hint[1]
+            self._hint = None
+            return h
+        return None
+
+    def lit_only(self, e):
+        if e[0] == "lit":
+            return e[2] is None
+        if e[0] == "paren":
+            return self.lit_only(e[1])
+        if e[0] == "bin":
+            return self.lit_only(e[2]) and self.lit_only(e[3])
+        return False
+
     def index_expr(self, e, st, want, out, ind):
+        if e[2][0] != "range":
+            base = self.ex(e[1], st, None, out, ind)
+            if isinstance(base.ty, tuple) and base.ty[0] == "vec":
+                # `Vector` element: Lean demands a proof of `idx < n` (get_elem_tactic) -- a possible out-of-bounds panic of the Rust
+                # indexing makes the GENERATED file fail to build, i.e. a broken extraction, never a silent default
+                ix = self.ex(e[2], st, "usize", out, ind)
+                if ix.ty not in ("usize", "nat"):
+                    raise TranslateError("vector index type")
+                return V(f"{base.p()}[{ix.t}]", base.ty[1])
         if e[2][0] == "range" and e[2][1] is not None and e[2][2] is not None:
             base = self.ex(e[1], st, None, out, ind)
             if isinstance(base.ty, tuple) and base.ty[0] == "list":
@@ -793,7 +837,7 @@ class Tr:
         return lv, rv
 
     # ---------- operators
-    def binop(self, op, l, r, st, want, out, ind):
+    def binop(self, op, l, r, st, want, out, ind, hint=None):
         if self.k.bits_types and op not in ("^", "|", "&", "==", "!="):
             raise TranslateError(f"operator {op} in a kernel that models a signed type by its bit pattern")
         if op in ("<<", ">>"):
@@ -819,6 +863,24 @@ class Tr:
         if op in ("&&", "||"):
             lv = self.ex(l, st, "bool", out, ind); rv = self.ex(r, st, "bool", out, ind)
             return V(f"{lv.p()} {op} {rv.p()}", "bool")
+        if op == "+" and self.k.mode == "int" and self.k.monadic:
+            terms = self.flatten_add(("bin", op, l, r))
+            if len(terms) >= 3:
+                vs = []
+                ty = want
+                for t_ in terms:
+                    v_ = self.ex(t_, st, ty, out, ind)
+                    ty = v_.ty
+                    vs.append(v_)
+                if any(v_.ty != ty for v_ in vs) or not self.is_int(ty):
+                    raise TranslateError("sum of mixed types")
+                fn = self.k.int_ops.get(("sum", SIGNED[ty]))
+                if fn is not None:
+                    # `a + b + c + …`: left to right, every partial sum checked (that IS the definition of the helper)
+                    name = hint or self.tmp_name(st)
+                    self._last_hinted = hint
+                    self.emit_let(out, ind, name, f"{fn} [" + ", ".join(v_.t for v_ in vs) + "]", bind=True)
+                    return V(name, ty, True)
         lv, rv = self.operands(l, r, st, want, out, ind)
         ty = lv.ty
         if self.is_word(ty):
@@ -833,7 +895,7 @@ class Tr:
             raise TranslateError(f"operator {op} on {ty}")
         if self.is_int(ty):
             if op in "+-*":
-                return self.int_arith(op, lv, rv, ty, st, out, ind)
+                return self.int_arith(op, lv, rv, ty, st, out, ind, hint)
             if op == "&":
                 return self.int_and(lv, rv, r, st)
             raise TranslateError(f"operator {op} on {ty}")
@@ -852,8 +914,13 @@ class Tr:
             return V(tmpl.format(lv.p(), rv.p()), rty)
         raise TranslateError(f"operator {op} on {ty}")
 
+    def flatten_add(self, e):
+        if e[0] == "bin" and e[1] == "+":
+            return self.flatten_add(e[2]) + [e[3]]
+        return [e]
+
     # int backend hooks (overridden by IntTr)
-    def int_arith(self, op, a, b, ty, st, out, ind):
+    def int_arith(self, op, a, b, ty, st, out, ind, hint=None):
         raise TranslateError("signed arithmetic needs mode='int'")
 
     def int_shift(self, op, a, n, st, out, ind):
@@ -965,6 +1032,13 @@ class Tr:
 
     def bind(self, place, v, st, out, ind, declare=False):
         """(re)bind a scalar place to value v through a Lean `let`"""
+        if self.k.monadic and v.at and v.t is not None and getattr(self, "_last_hinted", None) == v.t:
+            # the value was just produced by the hinted bind `let <name> ← …` (name chosen by fresh_for for this very place)
+            self._last_hinted = None
+            st.vars[place] = V(v.t, v.ty, True)
+            if declare:
+                st.scopes[-1].add(place)
+            return
         name = self.fresh_for(place, st)
         self.emit_let(out, ind, name, v.t)
         st.lenlb.pop(name, None)
@@ -975,10 +1049,26 @@ class Tr:
             st.scopes[-1].add(place)
 
     def assign_place(self, lhs, v, st, out, ind):
-        key = self.place_key(lhs, st)
+        try:
+            key = self.place_key(lhs, st)
+        except TranslateError:
+            key = None
         if key in self.k.stores:
             slot = self.k.stores[key]
             if slot.startswith("_"):
+                return
+        if lhs[0] in ("index",) or (lhs[0] == "deref" and lhs[1][0] == "index"):
+            ie = lhs if lhs[0] == "index" else lhs[1]
+            try:
+                bv = self.ex(ie[1], st, None, out, ind)
+            except TranslateError:
+                bv = None
+            if bv is not None and isinstance(bv.ty, tuple) and bv.ty[0] == "vec":
+                ix = self.ex(ie[2], st, "usize", out, ind)
+                if v.ty != bv.ty[1]:
+                    raise TranslateError("vector store: element type")
+                bkey = self.place_key(ie[1], st)
+                self.bind(bkey, V(f"{bv.p()}.set ({ix.t}) {v.p()}", bv.ty), st, out, ind)
                 return
         # element of tracked array
         if lhs[0] in ("index",) or (lhs[0] == "deref" and lhs[1][0] == "index"):
@@ -1002,6 +1092,8 @@ class Tr:
                 arr[ix] = v
                 st.vars[base] = arr
                 return
+        if key is None:
+            raise TranslateError("assignment to an unsupported place")
         if key in st.vars or key in self.k.env:
             old = st.vars.get(key)
             if old is None and key in self.k.env:
@@ -1015,6 +1107,23 @@ class Tr:
             self.bind(key, v, st, out, ind)
             return
         raise TranslateError(f"assignment to unknown place {key}")
+
+    def set_hint(self, e, lhs, st):
+        """monadic kernels: the bind of the outermost checked operation of `lhs = e` is named like the variable itself"""
+        self._hint = None
+        if not self.k.monadic:
+            return
+        while e[0] == "paren":
+            e = e[1]
+        if e[0] not in ("bin", "neg"):
+            return
+        try:
+            key = self.place_key(lhs, st) if isinstance(lhs, tuple) else lhs
+        except TranslateError:
+            return
+        if "[" in key:
+            return
+        self._hint = (e, self.fresh_for(key, st))
 
     def seq(self, stmts, i, st, out, ind, k):
         """translate stmts[i:], then continue with k(st, out, ind, retvalue)"""
@@ -1059,11 +1168,23 @@ class Tr:
                     cv = self.lookup_place(lhs, st)
                     cur_ty = cv.ty if isinstance(cv, V) else None
                 except TranslateError:
-                    key = self.place_key(lhs, st)
-                    cur_ty = self.decl_ty.get(key)
+                    try:
+                        cur_ty = self.decl_ty.get(self.place_key(lhs, st))
+                    except TranslateError:
+                        cur_ty = None
+                if cur_ty is None and lhs[0] == "index":
+                    try:
+                        cur_ty = self.ex(lhs, st, None, [], ind).ty
+                    except TranslateError:
+                        cur_ty = None
+                self.set_hint(rhs, lhs, st)
                 v = self.ex(rhs, st, cur_ty, out, ind)
+                self._hint = None
             else:
-                v = self.binop(op[:-1], lhs, rhs, st, None, out, ind)
+                be = ("bin", op[:-1], lhs, rhs)
+                self.set_hint(be, lhs, st)
+                v = self.ex(be, st, None, out, ind)
+                self._hint = None
             self.assign_place(lhs, v, st, out, ind)
             return rest(st, out, ind)
         if kind == "ret":
@@ -1167,7 +1288,9 @@ class Tr:
                 st.vars[name] = list(pv)
                 st.scopes[-1].add(name)
                 return rest(st, out, ind)
+        self.set_hint(init, name, st)
         v = self.ex(init, st, ty, out, ind)
+        self._hint = None
         if ty is not None and isinstance(ty, str) and v.ty != ty:
             raise TranslateError(f"let {name}: {ty} = value of type {v.ty}")
         self.bind(name, v, st, out, ind, declare=True)
@@ -1534,7 +1657,8 @@ class Tr:
             if len(set(keys)) != len(keys):
                 raise TranslateError(f"{fname}: the same place passed twice as a `&mut` argument")
             names = [self.fresh_for(key, st) for key in keys]
-            out.append(f"{ind}match {fn} {' '.join(v.p() for v in vals)} with")
+            app = fn.format(*[v.t for v in vals]) if "{" in fn else f"{fn} {' '.join(v.p() for v in vals)}"
+            out.append(f"{ind}match {app} with")
             out.append(f"{ind}| {pat[0]}{', '.join(names)}{pat[1]} =>")
             for key, n, j in zip(keys, names, outs):
                 st.vars[key] = V(n, vals[j].ty, True)
@@ -1563,7 +1687,15 @@ class Tr:
                         else:
                             pats += p_[1]
                 elif s[0] == "assign":
-                    key = self.place_key(s[1], st)
+                    try:
+                        key = self.place_key(s[1], st)
+                    except TranslateError:
+                        t = s[1]
+                        while t[0] in ("paren", "deref"):
+                            t = t[1]
+                        if t[0] != "index":
+                            raise
+                        key = self.place_key(t[1], st)
                     if key not in local and key not in acc:
                         acc.append(key)
                 elif s[0] in ("expr", "ret") and s[1][0] == "macro" and s[1][1] not in ("assert", "assert_eq", "unreachable", "panic"):
@@ -1595,7 +1727,7 @@ class Tr:
             lo_e, hi_e = it[1], it[2]
             if len(it) > 3 and it[3] == "..=":
                 raise TranslateError("inclusive range loop")
-            unroll = self.is_const_int(lo_e, st) and self.is_const_int(hi_e, st) and not (self.k.loop_fn and pat == ("var", "_"))
+            unroll = self.is_const_int(lo_e, st) and self.is_const_int(hi_e, st) and not (self.k.loop_fn and pat == ("var", "_")) and not self.k.iloops
             if unroll:
                 lo, hi = self.const_int(lo_e, st), self.const_int(hi_e, st)
                 if hi - lo > 4096:
@@ -1613,6 +1745,23 @@ class Tr:
                         return self.do_block(body, st2, out2, ind2, iteration(j + 1))
                     return run
                 return iteration(lo)(st, out, ind)
+            if self.k.iloops:
+                # `for i in 0..N { body }` rendered as `(List.finRange N).foldl STEP state`; STEP is the kernel translated from this body
+                if id(s) not in self.iloop_ids:          # the same loop may be met again in a duplicated continuation
+                    self.iloop_ids[id(s)] = len(self.iloop_ids)
+                n_ = self.iloop_ids[id(s)]
+                step = self.k.iloops[n_] if n_ < len(self.k.iloops) else None
+                if step is None:
+                    raise TranslateError("more indexed loops than declared step functions")
+                if not (lo_e[0] == "lit" and lo_e[1] == 0) or pat[0] != "var":
+                    raise TranslateError("indexed loop must be `for i in 0..N`")
+                n = self.const_int(hi_e, st)
+                state = self.assigned_in(body, st)
+                if len(state) != 1:
+                    raise TranslateError("indexed loop with a state of more than one place")
+                cur = self.ex(self.parse_place(state[0]), st, None, out, ind)
+                self.bind(state[0], V(f"(List.finRange {n}).foldl {step} {cur.p()}", cur.ty), st, out, ind)
+                return rest(st, out, ind)
             if self.k.loop_fn and pat == ("var", "_"):
                 if not (lo_e[0] == "lit" and lo_e[1] == 0):
                     raise TranslateError("counted loop must start at 0")
@@ -1774,14 +1923,15 @@ class Tr:
 class IntTr(Tr):
     """signed limbs as `Int`; see module docstring"""
 
-    def int_arith(self, op, a, b, ty, st, out, ind):
+    def int_arith(self, op, a, b, ty, st, out, ind, hint=None):
         w = SIGNED[ty]
         ops = self.k.int_ops
         if self.k.monadic:
             fn = ops.get((op, w))
             if fn is None:
                 raise TranslateError(f"no checked `{op}` of width {w} declared")
-            name = self.tmp_name(st)
+            name = hint or self.tmp_name(st)
+            self._last_hinted = hint
             self.emit_let(out, ind, name, f"{fn} {a.p()}" + (f" {b.p()}" if b is not None else ""), bind=True)
             return V(name, ty, True)
         if op == "neg":
